@@ -129,6 +129,10 @@ fn valid_readers(thorough: bool) -> Vec<(Scenario, u32)> {
         let s = reader("unc3", Kind::R2 { preset: None }, scen::stream_unc_units(3), None, w, 4096);
         v.push((s, if thorough { 2 } else { 1 }));
     }
+    for w in [0u32, u32::MAX] {
+        let s = reader("m2", Kind::RL, scen::stream_lzip(&[100, 3000]).0, None, w, 4096);
+        v.push((s, if thorough { 2 } else { 1 }));
+    }
     for (name, stream, members) in &st.rl {
         for workers in [1u32, 2, 3] {
             let s = reader(name, Kind::RL, stream.clone(), None, workers, 4096);
@@ -173,9 +177,25 @@ fn valid_writers(thorough: bool) -> Vec<(Scenario, u32)> {
         }
     }
     // worker limits 0 and u32::MAX
+    // MT LZMA2 writer with a preset dictionary in its options; the second and third unit begin with the preset's own
+    // content (a unit that was encoded against the preset would contain matches into it)
+    {
+        let p = scen::preset_text();
+        let mut input = scen::text_input(UNIT, 17);
+        for k in 0..2 {
+            input.extend_from_slice(&p);
+            input.extend_from_slice(&scen::text_input(UNIT - p.len(), 40 + k));
+        }
+        input.extend_from_slice(&p[..5]);
+        for workers in [1u32, 2] {
+            v.push((writer("preset-in3u+5/one", Kind::W2P, input.clone(), vec![], workers), if workers == 1 { 2 } else { 1 }));
+        }
+    }
     for w in [0u32, u32::MAX] {
-        let s = writer("in3u+5/one", Kind::W2, scen::text_input(3 * UNIT + 5, 17), vec![], w);
-        v.push((s, 1));
+        for kind in [Kind::W2, Kind::WL] {
+            let s = writer("in3u+5/one", kind, scen::text_input(3 * UNIT + 5, 17), vec![], w);
+            v.push((s, 1));
+        }
     }
     v
 }
@@ -234,7 +254,7 @@ fn fault_variants(thorough: bool) -> Vec<(Scenario, u32)> {
         bad.push(("corrupt/lzma-data-unit0".into(), s0));
     }
     for (name, stream) in bad {
-        for workers in [1u32, 2] {
+        for workers in [1u32, 2, 0] {
             let mut s = reader(&name, Kind::R2 { preset: None }, stream.clone(), None, workers, 4096);
             s.must_err = true;
             v.push((s, b));
@@ -268,7 +288,7 @@ fn fault_variants(thorough: bool) -> Vec<(Scenario, u32)> {
         badl.push(("empty/zero-bytes".into(), vec![]));
     }
     for (name, stream) in badl {
-        for workers in [1u32, 2] {
+        for workers in [1u32, 2, 0] {
             let mut s = reader(&name, Kind::RL, stream.clone(), None, workers, 4096);
             s.must_err = true;
             v.push((s, b));
@@ -282,7 +302,7 @@ fn fault_variants(thorough: bool) -> Vec<(Scenario, u32)> {
     // --- writers: sink error at write call j
     for kind in [Kind::W2, Kind::WL] {
         for j in 1..=4 {
-            for workers in [1u32, 2] {
+            for workers in [1u32, 2, 0] {
                 let mut s = writer("in3u+5/one", kind.clone(), scen::text_input(3 * UNIT + 5, 17), vec![], workers);
                 s.fail_at = j;
                 v.push((s, 1));
@@ -383,8 +403,8 @@ pub fn menu(prop: &str, thorough: bool) -> Vec<(Arc<Scenario>, u32)> {
         "C09" => {
             let mut v = fault_variants(thorough);
             // valid runs must succeed as well ("never reports success with part of the data missing")
-            v.extend(valid_readers(false).into_iter().filter(|(s, _)| s.workers == 2).map(|(s, _)| (s, 1)));
-            v.extend(valid_writers(false).into_iter().filter(|(s, _)| s.workers == 2).map(|(s, _)| (s, 1)));
+            v.extend(valid_readers(false).into_iter().filter(|(s, _)| matches!(s.workers, 2 | 0 | u32::MAX)).map(|(s, _)| (s, 1)));
+            v.extend(valid_writers(false).into_iter().filter(|(s, _)| matches!(s.workers, 2 | 0 | u32::MAX)).map(|(s, _)| (s, 1)));
             v
         }
         "C10" => drop_variants(thorough),
